@@ -10,7 +10,7 @@ from pathlib import Path
 
 import numpy as np
 
-from . import devices
+from . import core, devices
 from .runsim import BOT, FILEMAP, FOREIGN_BYTES, fs_state, read_frames
 
 MAGS = [1.0, 1e-3, 1e-6]
@@ -38,6 +38,48 @@ BAD_OPTIONS = [lambda mag: dict(dt_init=0.1 * (1 + mag), dt_max=0.1), lambda mag
                lambda mag: dict(sparse_solver="cupy"),                       # needs gpu=True: two options that contradict each other
                lambda mag: dict(gpu=True), lambda mag: dict(sparse_solver="umfpack"), lambda mag: dict(sparse_solver="pardiso"),
                lambda mag: dict(sparse_solver="cupy", gpu=True)]
+SEED_DIFFS = ["fewer-terminals", "no-terminals", "fewer-holes", "one-more-hole", "layer", "name", "probe-points", "other-kind"]
+
+
+def seed_device(tdgl, dev, how):
+    """A meshed device equal to `dev` except in one respect."""
+    from tdgl.geometry import circle
+    kw = dict(layer=dev.layer, film=dev.film, holes=list(dev.holes), terminals=[t.copy() for t in dev.terminals],
+              probe_points=dev.probe_points, length_units=dev.length_units)
+    name = dev.name
+    if how == "fewer-terminals":
+        kw["terminals"] = kw["terminals"][:-1] if len(kw["terminals"]) > 2 else []
+    elif how == "no-terminals":
+        kw["terminals"] = []
+    elif how == "fewer-holes":
+        if not kw["holes"]:
+            how = "one-more-hole"
+        else:
+            kw["holes"] = kw["holes"][:-1]
+    if how == "one-more-hole":
+        kw["holes"] = kw["holes"] + [tdgl.Polygon("extra", points=circle(0.3, points=12, center=(-1.0, -0.7)))]
+    elif how == "layer":
+        kw["layer"] = tdgl.Layer(coherence_length=0.5, london_lambda=2.0, thickness=0.1, gamma=10.0)
+    elif how == "name":
+        name = dev.name + "_b"
+    elif how == "probe-points":
+        kw["probe_points"] = [(-1.0, 0.5), (1.0, -0.5)]
+    elif how == "other-kind":
+        return devices.make(tdgl, "bar" if dev.name != "bar" else "barhole", probes=2)
+    d = tdgl.Device(name, **kw)
+    d.make_mesh(max_edge_length=0.8 * (0.5 if how == "layer" else 1.0), smooth=0)
+    return d
+
+
+def seed_currents(d):
+    names = [t.name for t in d.terminals]
+    if len(names) < 2:
+        return None
+    cur = {n: 0.0 for n in names}
+    cur[names[0]], cur[names[1]] = 1.0, -1.0
+    return cur
+
+
 ENV_DEPENDENT = {15: "cupy", 16: "scikits.umfpack", 17: "pypardiso", 18: "cupy"}
 
 
@@ -48,7 +90,7 @@ def matrix(ctx):
         for d in devs:
             for mag in MAGS:
                 for outm in ("temp", "path"):
-                    variants = {"options": len(BAD_OPTIONS), "options_reused": len(BAD_OPTIONS), "polygon": 9, "device": 8, "epsilon": 3, "currents_t": 2, "terminal": 8,
+                    variants = {"options": len(BAD_OPTIONS), "options_reused": len(BAD_OPTIONS), "polygon": 9, "device": 8, "seed": len(SEED_DIFFS), "epsilon": 3, "currents_t": 2, "terminal": 8,
                                 "ashape": 16}.get(cls, 1)
                     for v in range(variants):
                         if cls in ("options", "options_reused", "polygon", "device", "terminal", "seed", "ashape") and mag != 1.0 \
@@ -64,7 +106,7 @@ def matrix(ctx):
     if ctx.quick:
         import random
         rnd = random.Random(ctx.seed)
-        keep = [p for p in out if p["dev"] == "bar" or p["cls"] == "none"]
+        keep = [p for p in out if p["dev"] == "bar" or p["cls"] in ("none", "seed")]
         rest = [p for p in out if p not in keep]
         rnd.shuffle(rest)
         out = keep + rest[:40]
@@ -170,7 +212,11 @@ def illposed_run(tdgl, p, base_tmp=None):
                     cur = dict(solve_kw["terminal_currents"])
                     solve_kw["terminal_currents"] = lambda t, cur=cur: dict(cur)
             elif cls == "seed":
-                other = devices.make(tdgl, "bar" if p["dev"] != "bar" else "barhole", probes=2)
+                # a seed solution from a different device.  The other device differs from the simulated one in exactly ONE
+                # respect (everything else — name, layer, film, probe points, units — is equal): fewer holes/terminals (its
+                # polygons are a subset), no terminal at all, one more hole, another layer, another name, other probe points
+                how = SEED_DIFFS[v % len(SEED_DIFFS)]
+                other = seed_device(tdgl, dev, how)
                 o2 = tdgl.SolverOptions(**dict(kw, output_file=None))
                 tempfile.tempdir = old_tempdir
                 seed_dir = tempfile.mkdtemp(prefix="seed", dir=base_tmp)
@@ -179,7 +225,12 @@ def illposed_run(tdgl, p, base_tmp=None):
                     o2.output_file = "seed.h5"
                     DH.__enter__, DH.__exit__ = orig_enter, orig_exit
                     seed = tdgl.solve(other, o2, applied_vector_potential=0.1,
-                                      terminal_currents=devices.balanced_currents(other.name, 1.0))
+                                      terminal_currents=seed_currents(other))
+                    # independent of Device.__eq__ (the code under test): the two devices differ in a respect we can name
+                    sig = lambda d: (d.name, len(d.holes), len(d.terminals), float(d.layer.coherence_length),
+                                     None if d.probe_points is None else np.asarray(d.probe_points).round(9).tolist())
+                    if sig(seed.device) == sig(dev):
+                        raise core.MachineryFailure(f"C19: the seed device ({how}) does not differ from the simulated device (vacuous)")
                 finally:
                     DH.__enter__, DH.__exit__ = w_enter, w_exit
                     os.chdir(sandbox)
@@ -268,7 +319,7 @@ def illposed_run(tdgl, p, base_tmp=None):
             phase = "presolve"
             sol = solver.solve()
             result = "none" if sol is None else "solution"
-        except KeyboardInterrupt:
+        except (KeyboardInterrupt, core.MachineryFailure):
             raise
         except Exception as e:
             exc = type(e).__name__ + ": " + str(e)[:200]
